@@ -1123,6 +1123,12 @@ impl<'a> CompactionIterator<'a> {
 			let required_by_snapshot =
 				!superseded && self.must_preserve_for_snapshot(current_visibility);
 
+			// A superseded version is one no snapshot needs. Without versioning that
+			// is reason enough to drop it. With versioning it is history, and the
+			// retention rules below decide - an open reader must not make
+			// compaction discard versions that would otherwise be kept.
+			let superseded = superseded && !self.enable_versioning;
+
 			// ===== DETERMINE IF ENTRY IS STALE =====
 			// Stale entries are filtered out during compaction
 
